@@ -679,12 +679,8 @@ func (p *PQL) Init() {
 						}
 						{
 							position12 := position
-							{
-								position13 := position
-								if !_rules[ruletimestampfmt]() {
-									goto l10
-								}
-								add(rulePegText, position13)
+							if !_rules[ruletimestampfmt]() {
+								goto l10
 							}
 							{
 								add(ruleAction57, position)
@@ -3006,7 +3002,7 @@ func (p *PQL) Init() {
 			position, tokenIndex = position294, tokenIndex294
 			return false
 		},
-		/* 31 timestamp <- <(<timestampfmt> Action57)> */
+		/* 31 timestamp <- <(timestampfmt Action57)> */
 		nil,
 		/* 33 Action0 <- <{p.startCall("Set")}> */
 		nil,
